@@ -84,6 +84,8 @@ pub const C_WAKE_EAGAIN_ALIAS: usize = sim::C_WAKE_EAGAIN;
 enum Mode {
     Wait,
     Forever,
+    /// `signals.forever().next()` per item: a fresh infinite iterator for every value
+    ForeverRecreate,
     Pending,
     Poll,
     /// the real signal-hook-tokio Stream on a real current-thread tokio runtime, polled by hand
@@ -130,6 +132,8 @@ struct World {
     armed: bool,
     probe_fd: i32,
     wake_stack: Vec<Vec<(u64, u64)>>,
+    post_close_calls: u32,
+    post_close_kind: u32,
 }
 
 static mut WORLD: *mut World = std::ptr::null_mut();
@@ -337,7 +341,7 @@ fn call_begin() {
     x.consumer_call_begin = x.seq;
     if x.close_returned.is_some() {
         x.consumer_calls_after_close += 1;
-        if x.consumer_calls_after_close > 6 {
+        if x.consumer_calls_after_close > 6 + x.post_close_calls {
             sim::report("C11", "consumer-does-not-terminate-after-close", &format!("the consumer has made {} calls after close() returned and has still not been told that the instance is closed", x.consumer_calls_after_close), true);
         }
     }
@@ -400,7 +404,52 @@ where
                 }
             }
         }
+        Mode::ForeverRecreate => loop {
+            call_begin();
+            let n = s.forever().next();
+            call_end();
+            match n {
+                Some(o) => record_yield(&o),
+                None => {
+                    if !h.is_closed() {
+                        let _g = ShimGuard::new();
+                        sim::report("C11", "forever-ended-while-open", "forever() returned None although the instance is not closed", true);
+                    }
+                    break;
+                }
+            }
+        },
         _ => unreachable!(),
+    }
+    // calls that *start* after close() must return too, however often they are made and
+    // whatever the earlier ones consumed
+    let extra = w().post_close_calls;
+    for k in 0..extra {
+        call_begin();
+        match (k + w().post_close_kind) % 3 {
+            0 => {
+                let b: Vec<E::Output> = s.wait().collect();
+                call_end();
+                for o in b.iter() {
+                    record_yield(o);
+                }
+            }
+            1 => {
+                let b: Vec<E::Output> = s.pending().collect();
+                call_end();
+                for o in b.iter() {
+                    record_yield(o);
+                }
+            }
+            _ => {
+                let n = s.forever().next();
+                call_end();
+                if let Some(o) = n {
+                    record_yield(&o);
+                }
+            }
+        }
+        check_sticky(&h, "the consumer's handle");
     }
     {
         let _g = ShimGuard::new();
@@ -852,6 +901,8 @@ pub fn run(spec: &RunSpec) -> ! {
         armed: false,
         probe_fd: -1,
         wake_stack: (0..sim::MAX_THREADS).map(|_| Vec::with_capacity(8)).collect(),
+        post_close_calls: 0,
+        post_close_kind: 0,
     });
     unsafe { WORLD = Box::into_raw(world) };
     let sh = sighook_shim::shm::get();
@@ -859,17 +910,23 @@ pub fn run(spec: &RunSpec) -> ! {
 
     // ---- scenario
     // a slice of the C09-C11 runs drives the real async adapters instead of the stub reactor
-    let adapter_tokio = (prop == "C11" || prop == "C09") && spec.run % 8 == 7;
+    let adapter_tokio = (prop == "C11" || prop == "C09" || prop == "C03") && spec.run % 8 == 7;
     if prop == "C11" && spec.run % 64 == 6 {
         w().watched.push((libc::SIGUSR1, 0, Some(0)));
         w().consumer_tid = 0;
         asyncio_conformance(spec);
     }
     let mode = [Mode::Wait, Mode::Forever, Mode::Pending, Mode::Poll][sim::work(4) as usize];
+    let mode = if mode == Mode::Forever && sim::work(2) == 0 { Mode::ForeverRecreate } else { mode };
+    {
+        let x = w();
+        x.post_close_calls = sim::work(4);
+        x.post_close_kind = sim::work(3);
+    }
     let mode = if prop == "C11" && sim::work(2) == 0 { Mode::Poll } else { mode };
     let mode = if adapter_tokio { Mode::Tokio } else { mode };
     // C12's concurrent slice needs the harness-owned pipe (clean-up probe)
-    let mode = if prop == "C12" { [Mode::Pending, Mode::Poll][(spec.run / 4 % 2) as usize] } else { mode };
+    let mode = if prop == "C12" || prop == "C01" { [Mode::Pending, Mode::Poll][(spec.run / 8 % 2) as usize] } else { mode };
     let exf = sim::work(3) as u8;
     let mut pool: Vec<i32> = SIGS.to_vec();
     let nw = 1 + sim::work(2) as usize;
@@ -898,7 +955,8 @@ pub fn run(spec: &RunSpec) -> ! {
     let nclosers = if prop == "C11" { 1 + sim::work(3) as usize } else { 1 };
     let concurrent_add = added.is_some() && sim::work(2) == 0;
     let rejected_add = sim::work(4) == 0;
-    let early_close = prop == "C11" && sim::work(3) != 0;
+    // close (and the drop of the instance that follows) while deliveries are still running
+    let early_close = (prop == "C11" && sim::work(3) != 0) || ((prop == "C03" || prop == "C01") && sim::work(2) == 0);
     let prefill = sim::work(4);
     let policy = match sim::work(8) {
         0 | 1 => Policy::Uniform,
@@ -1111,7 +1169,9 @@ pub fn run(spec: &RunSpec) -> ! {
             let n = drain_fd(w().probe_fd);
             if n != 0 {
                 let _g = ShimGuard::new();
-                sim::report("C12", "registration-leaked", &format!("after the instance and all its handles were dropped a delivery of {} still wrote {} byte(s) into its self-pipe: a registration was left behind", sig_name(s), n), true);
+                let msg = format!("after the instance and all its handles were dropped a delivery of {} still wrote {} byte(s) into its self-pipe: a registration was left behind (its action still runs, its captures are never released)", sig_name(s), n);
+                sim::report("C01", "action-survives-drop-of-owner", &msg, false);
+                sim::report("C12", "registration-leaked", &msg, true);
             }
         }
     }
@@ -1127,7 +1187,7 @@ pub fn run(spec: &RunSpec) -> ! {
         "C09" | "C03" => c[E_ITER_STORE_DURING_SCAN] > 0,
         "C10" => c[E_ITER_STORE_DURING_SCAN] > 0 || burst,
         "C11" => c[E_ITER_CLOSE_BETWEEN_CHECKS] > 0 || c[E_ITER_CLOSE_WHILE_BLOCKED] > 0,
-        "C12" => c[E_CONCURRENT_ADD] > 0 || c[E_HIST_REJECTED] > 0,
+        "C12" | "C01" => c[E_CONCURRENT_ADD] > 0 || c[E_HIST_REJECTED] > 0,
         _ => true,
     };
     if nontrivial {
